@@ -730,6 +730,224 @@ theorem source_a12_pos_inverse (B : M3 K) (v1 v2 : V3 K) (h : V3.cross (cartOf v
   rw [gen_a12_to_pos_eq_model]
   exact (a12_pos_inverse (cartOf v1 B) (cartOf v2 B) h).1 (a1, a2)
 
+/-- … with BOTH directions as the source writes them: the source's `pos_to_a12` (solve in the basis `[A1, A2, c/|c|^½]`, tolerance
+    `1e-6 max(1, |a1|, |a2|)`) applied to the source's `a12_to_pos` returns the fractional coordinates and never raises, in any
+    box, for any non-parallel shift vectors; `rn` is any positive number with `rn⁴ = |A1 × A2|²` (what `norm ** 0.5` computes). -/
+theorem source_conversions_inverse (rn : K) (B : M3 K) (v1 v2 : V3 K) (hrn : 0 < rn)
+    (h4 : (rn * rn) * (rn * rn) = V3.dot (V3.cross (cartOf v1 B) (cartOf v2 B)) (V3.cross (cartOf v1 B) (cartOf v2 B)))
+    (h : V3.cross (cartOf v1 B) (cartOf v2 B) ≠ v3zero) (a1 a2 : K) :
+    Gen.gen_pos_to_a12 rn B v1 v2 (Gen.gen_a12_to_pos B v1 v2 a1 a2) = some (a1, a2) := by
+  rw [gen_pos_to_a12_eq_model rn B v1 v2 _ hrn h4 h]
+  exact source_a12_pos_inverse B v1 v2 h a1 a2
+
+
+section
+variable [FloorRing K]
+/-- the value `E_gsf` / `delta` compute at the source's own wrapped coordinates IS the model's `E` / `deltaEval`: every theorem about
+    `E` (periodicity, interpolation, scaling, many points) is a theorem about the source's wrap followed by the blend. -/
+theorem source_E_eq_model (f : K → K → K) (c1 c2 a1 a2 : K) :
+    evalE f c1 c2 (Gen.gen_wrap_cushion Int.floor a1 c1) (Gen.gen_wrap_cushion Int.floor a2 c2) = E Int.floor f c1 c2 a1 a2 ∧
+    f (Gen.gen_wrap_unit Int.floor Int.ceil a1) (Gen.gen_wrap_unit Int.floor Int.ceil a2) = deltaEval Int.floor Int.ceil f a1 a2 := by
+  simp only [gen_wrap_cushion_eq_model, gen_wrap_unit_eq_model, E, deltaEval, and_self]
+end
+
+/-! ## refusals: which profiles the setters and `solve` refuse, and what is stored then -/
+
+section refusalThms
+
+/-- the uniform grid `x0, x0 + h, …` with `n` points. -/
+def uniformGrid (x0 h : K) (n : Nat) : List K := (List.range n).map (fun (i : Nat) => x0 + (i : K) * h)
+
+theorem xDiffs_uniform (x0 h : K) (n : Nat) : xDiffs (uniformGrid x0 h (n + 1)) = List.replicate n h := by
+  unfold xDiffs uniformGrid
+  apply List.ext_getElem
+  · simp
+  · intro i h1 h2
+    simp only [List.getElem_zipWith, List.getElem_drop, List.getElem_map, List.getElem_range, List.getElem_replicate]
+    push_cast; ring
+
+/-- **never a spurious refusal**: every exactly uniform increasing grid with at least two points is accepted by the `x` setter,
+    whatever the origin, the spacing (`h > 0`: SI metres or 2^200) and the number of points. -/
+theorem xSetter_accepts_uniform (x0 h : K) (hh : 0 < h) (n : Nat) : xSetter? (uniformGrid x0 h (n + 2)) = none := by
+  unfold xSetter?
+  rw [xDiffs_uniform, List.replicate_succ]
+  simp only [List.all_cons, List.all_replicate, sub_self, absK_eq, abs_zero]
+  have : (0 : K) ≤ tolR * |h| := mul_nonneg (le_of_lt tolR_pos) (abs_nonneg h)
+  simp [this, hh]
+
+/-- what acceptance means, exactly: at least two points, first step positive, every step within `1e-5` (relative) of the first. -/
+theorem xSetter_accepts_iff (x : List K) :
+    xSetter? x = none ↔ ∃ d0 ds, xDiffs x = d0 :: ds ∧ 0 < d0 ∧ ∀ t ∈ d0 :: ds, |t - d0| ≤ tolR * d0 := by
+  unfold xSetter?
+  cases hx : xDiffs x with
+  | nil => simp
+  | cons d0 ds =>
+    simp only []
+    constructor
+    · intro h
+      by_cases hc : ((d0 :: ds).all (fun t => decide (absK (t - d0) ≤ tolR * absK d0)) && decide (0 < d0)) = true
+      · simp only [Bool.and_eq_true, List.all_eq_true, decide_eq_true_eq, absK_eq] at hc
+        exact ⟨d0, ds, rfl, hc.2, fun t ht => by have := hc.1 t ht; rwa [abs_of_pos hc.2] at this⟩
+      · rw [if_neg hc] at h; cases h
+    · rintro ⟨e0, es, heq, hpos, hall⟩
+      cases heq
+      have hc : ((d0 :: ds).all (fun t => decide (absK (t - d0) ≤ tolR * absK d0)) && decide (0 < d0)) = true := by
+        simp only [Bool.and_eq_true, List.all_eq_true, decide_eq_true_eq, absK_eq]
+        refine ⟨fun t ht => ?_, hpos⟩
+        rw [abs_of_pos hpos]; exact hall t ht
+      rw [if_pos hc]
+
+/-- fewer than two points: `diff[0]` raises `IndexError` (not an assertion). -/
+theorem xSetter_short (x : List K) (h : x.length < 2) : xSetter? x = some .xIndex := by
+  unfold xSetter? xDiffs
+  match x, h with
+  | [], _ => rfl
+  | [a], _ => rfl
+
+/-- a grid whose first step is not positive (decreasing, or two equal points) is refused. -/
+theorem xSetter_refuses_nonincreasing (a b : K) (l : List K) (h : b ≤ a) : xSetter? (a :: b :: l) ≠ none := by
+  intro hacc
+  obtain ⟨d0, ds, hd, hpos, _⟩ := (xSetter_accepts_iff _).mp hacc
+  simp only [xDiffs, List.drop_succ_cons, List.drop_zero, List.zipWith_cons_cons, List.cons.injEq] at hd
+  linarith [hd.1]
+
+theorem xDiffs_map_mul (s : K) (x : List K) : xDiffs (x.map (s * ·)) = (xDiffs x).map (s * ·) := by
+  unfold xDiffs
+  rw [← List.map_drop, List.zipWith_map, List.map_zipWith]
+  congr 1; funext a b; ring
+
+theorem xDiffs_map_add (c : K) (x : List K) : xDiffs (x.map (· + c)) = xDiffs x := by
+  unfold xDiffs
+  rw [← List.map_drop, List.zipWith_map]
+  congr 1; funext a b; ring
+
+/-- the `x` setter is free of the unit of length and of the origin: scaling the grid by any `s > 0` (Å → m, 2^±200) or
+    translating it changes nothing about what is accepted or how it is refused. -/
+theorem xSetter_scale_shift (s c : K) (hs : 0 < s) (x : List K) :
+    xSetter? (x.map (s * ·)) = xSetter? x ∧ xSetter? (x.map (· + c)) = xSetter? x := by
+  refine ⟨?_, by unfold xSetter?; rw [xDiffs_map_add]⟩
+  unfold xSetter?
+  rw [xDiffs_map_mul]
+  cases xDiffs x with
+  | nil => rfl
+  | cons d0 ds =>
+    simp only [List.map_cons, List.all_cons, List.all_map, absK_eq]
+    have e : ∀ t : K, (|s * t - s * d0| ≤ tolR * |s * d0|) ↔ (|t - d0| ≤ tolR * |d0|) := by
+      intro t
+      rw [← mul_sub, abs_mul, abs_mul, abs_of_pos hs, mul_left_comm]
+      exact mul_le_mul_iff_right₀ hs
+    have e0 : (0 < s * d0) ↔ 0 < d0 := by
+      constructor
+      · intro h; by_contra hn; have hn := not_lt.mp hn; nlinarith
+      · intro h; positivity
+    have ea : ds.all ((fun t => decide (|t - s * d0| ≤ tolR * |s * d0|)) ∘ fun x => s * x)
+        = ds.all (fun t => decide (|t - d0| ≤ tolR * |d0|)) := by
+      congr 1; funext t; simp only [Function.comp, e]
+    simp only [e, e0, ea]
+
+theorem maxAbs3_nonneg (v : V3 K) : 0 ≤ maxAbs3 v := by
+  unfold maxAbs3 maxK
+  rw [absK_eq, absK_eq, absK_eq]
+  split_ifs <;> exact abs_nonneg _
+
+/-- **never a spurious refusal**: a non-empty disregistry with no out-of-plane component is accepted, at every scale. -/
+theorem dSetter_accepts_planar (d : List (V3 K)) (hd : d ≠ []) (hy : ∀ v ∈ d, v.y = 0) : dSetter? d = none := by
+  unfold dSetter?
+  cases hm : maxOf (d.map maxAbs3) with
+  | none =>
+    cases d with
+    | nil => exact absurd rfl hd
+    | cons a l =>
+      obtain ⟨m, hm'⟩ := maxOf_isSome_of_mem ((a :: l).map maxAbs3) (maxAbs3 a) (by simp)
+      rw [hm] at hm'; cases hm'
+  | some m =>
+    have hm0 : 0 ≤ m := by
+      obtain ⟨hmem, _⟩ := maxOf_spec _ _ hm
+      obtain ⟨v, _, rfl⟩ := List.mem_map.mp hmem
+      exact maxAbs3_nonneg v
+    have : d.all (fun v => decide (absK v.y ≤ tolA * m)) = true := by
+      simp only [List.all_eq_true, decide_eq_true_eq]
+      intro v hv
+      rw [hy v hv, absK_eq, abs_zero]
+      exact mul_nonneg (le_of_lt tolA_pos) hm0
+    simp [this]
+
+/-- an empty array: `.max()` raises `ValueError`. -/
+theorem dSetter_empty : dSetter? ([] : List (V3 K)) = some .dValue := rfl
+
+/-- what `solve` stores always passes the `disregistry` setter when the end rows of the guess lie in the plane (interior `y` is
+    exactly 0): the final `self.disregistry = recompose(…)` cannot raise then, for ANY optimiser output. -/
+theorem solve_result_accepted (res : List K) (d : List (V3 K)) (h0 : (d.headD v3zero).y = 0) (h1 : (d.getLastD v3zero).y = 0) :
+    dSetter? (solveResult res d) = none := by
+  apply dSetter_accepts_planar
+  · simp [solveResult, recompose]
+  · intro v hv
+    simp only [solveResult, recompose, List.cons_append, List.mem_cons, List.mem_append, List.mem_singleton] at hv
+    rcases hv with rfl | hv | hv
+    · exact h0
+    · obtain ⟨i, hi, rfl⟩ := List.mem_iff_getElem.mp hv
+      simp
+    · rcases hv with rfl | hv
+      · exact h1
+      · cases hv
+
+/-- `solve(**kwargs)` with its refusals, stage by stage: (1) accepted ⇒ exactly the unguarded model `Obj.apply (.solve kw res)`;
+    (2) `x` refused ⇒ nothing changed; (3) `disregistry` refused ⇒ ONLY the new `x` is stored; (4) lengths differ ⇒ every keyword
+    is stored, the profile is not touched by the minimiser. -/
+theorem solve_refusal_stages (o : Obj K) (kw : SolveKw K) (res : List K) :
+    ((o.solve? kw res).2 = none → (o.solve? kw res).1 = o.apply (.solve kw res)) ∧
+    (∀ r, kw.x.bind xSetter? = some r → o.solve? kw res = (o, some r)) ∧
+    (∀ r, kw.x.bind xSetter? = none → kw.d.bind dSetter? = some r →
+        o.solve? kw res = ({ o with x := kw.x.getD o.x }, some r)) ∧
+    (kw.x.bind xSetter? = none → kw.d.bind dSetter? = none → (o.applyKw kw).x.length ≠ (o.applyKw kw).d.length →
+        o.solve? kw res = (o.applyKw kw, some .lengths)) := by
+  refine ⟨?_, ?_, ?_, ?_⟩
+  · unfold Obj.solve?
+    cases hx : kw.x.bind xSetter? with
+    | some r => simp
+    | none =>
+      cases hd : kw.d.bind dSetter? with
+      | some r => simp
+      | none =>
+        simp only
+        split_ifs with hl
+        · simp
+        · cases hf : dSetter? (solveResult res (o.applyKw kw).d) with
+          | some r => simp
+          | none => intro _; rfl
+  · intro r hx; unfold Obj.solve?; rw [hx]
+  · intro r hx hd; unfold Obj.solve?; rw [hx]; simp only; rw [hd]
+  · intro hx hd hl; unfold Obj.solve?; rw [hx]; simp only; rw [hd]; simp only; rw [if_pos hl]
+
+/-- **the model refuses exactly when …**: `solve` runs through iff the `x` keyword (if given) passes its setter, the `disregistry`
+    keyword (if given) passes its setter, the effective grid and guess have the same length and the embedded result passes the
+    setter; for a guess whose end rows lie in the plane the last condition always holds. -/
+theorem solve_accepts_iff (o : Obj K) (kw : SolveKw K) (res : List K) :
+    (o.solve? kw res).2 = none ↔
+      kw.x.bind xSetter? = none ∧ kw.d.bind dSetter? = none ∧ (o.applyKw kw).x.length = (o.applyKw kw).d.length ∧
+        dSetter? (solveResult res (o.applyKw kw).d) = none := by
+  unfold Obj.solve?
+  cases hx : kw.x.bind xSetter? with
+  | some r => simp
+  | none =>
+    cases hd : kw.d.bind dSetter? with
+    | some r => simp
+    | none =>
+      simp only
+      split_ifs with hl
+      · simp [hl]
+      · cases hf : dSetter? (solveResult res (o.applyKw kw).d) with
+        | some r => simp
+        | none => simp [not_not.mp hl]
+
+/-- the profile setters: accepted ⇒ the unguarded model's setter; refused ⇒ the object is unchanged. -/
+theorem setters_refusal (o : Obj K) (x : List K) (d : List (V3 K)) :
+    ((o.setX? x).2 = none → (o.setX? x).1 = o.apply (.setX x)) ∧ ((o.setX? x).2 ≠ none → (o.setX? x).1 = o) ∧
+    ((o.setD? d).2 = none → (o.setD? d).1 = o.apply (.setD d)) ∧ ((o.setD? d).2 ≠ none → (o.setD? d).1 = o) := by
+  unfold Obj.setX? Obj.setD?
+  cases xSetter? x <;> cases dSetter? d <;> simp [Obj.apply]
+
+end refusalThms
 
 /-! ## non-vacuity: the hypotheses of `E_interpolates` are satisfiable with non-constant data -/
 
@@ -972,5 +1190,13 @@ theorem halfwidth_continuum_real (pi g0 Kb2 c : ℝ) (hpi : 0 < pi) (hg : 0 < g0
 example : stressEnergyT (K := ℚ) false false ⟨⟨0, 1, 0⟩, ⟨0, 0, 0⟩, ⟨0, 0, 0⟩⟩ [0, 1] [⟨1, 0, 0⟩, ⟨1, 0, 0⟩]
     ≠ stressEnergyT (K := ℚ) false false (M3.transpose ⟨⟨0, 1, 0⟩, ⟨0, 0, 0⟩, ⟨0, 0, 0⟩⟩) [0, 1] [⟨1, 0, 0⟩, ⟨1, 0, 0⟩] := by
   decide +kernel
+
+/-- refusals, decided on concrete profiles: a uniform grid accepted, one point moved by 1e-4 of the step refused, a decreasing grid
+    refused, one point `IndexError`; `solve(x=bad)` leaves the object alone, `solve(x=good, disregistry=bad)` stores the new grid
+    only. -/
+example : xSetter? ([0, 1/4, 1/2, 3/4] : List ℚ) = none ∧ xSetter? ([0, 1/4, 1/2 + 1/40000, 3/4] : List ℚ) = some .xAssert ∧
+    xSetter? ([3/4, 1/2, 1/4] : List ℚ) = some .xAssert ∧ xSetter? ([1] : List ℚ) = some .xIndex ∧
+    dSetter? ([⟨0, 0, 0⟩, ⟨1, 1/1000000000, 0⟩, ⟨2, 0, 0⟩] : List (V3 ℚ)) = none ∧
+    dSetter? ([⟨0, 0, 0⟩, ⟨1, 1/1000000, 0⟩, ⟨2, 0, 0⟩] : List (V3 ℚ)) = some .dAssert := by decide +kernel
 
 end Atomman.C18
